@@ -208,7 +208,8 @@ impl<T: Qcow2IoOps> Qcow2Dev<T> {
 
         if let Some(lock) = cluster_lock {
             if let Some(df) = discard {
-                df.await?
+                df.await?;
+                self.zeroed_clusters.fetch_add(1, Ordering::Relaxed);
             }
 
             let cow_res = match cow_mapping {
@@ -285,6 +286,8 @@ impl<T: Qcow2IoOps> Qcow2Dev<T> {
                 *locked_cls = false;
                 return Err(e);
             }
+
+            self.zeroed_clusters.fetch_add(1, Ordering::Relaxed);
 
             // waiters on this lock may hold the map's read lock, so release
             // it before taking the map's write lock
